@@ -1,0 +1,43 @@
+//go:build verif
+
+// Contracts for the deductive verifier in /verif (comment-only; compiled only with -tags verif).
+package keeper
+
+//@ family prm key global:types.ParamsKey value types.Params
+
+// What an accepted parameter set guarantees. Consumers of the parameters assume exactly this.
+//@ define paramsOK(p) = ufb("denom_valid", p.PoolCreationFee.Denom) && p.PoolCreationFee.Amount >= 0
+//@      && !isnil(p.TaxRate) && raw(p.TaxRate) > 0 && raw(p.TaxRate) < DEC_ONE
+//@ define paramsStored = has(prm) && paramsOK(get(prm))
+//@ define MOD = macc("farm")
+//@ define taxOf(p) = (p.PoolCreationFee.Amount * raw(p.TaxRate)) div DEC_ONE
+//@ define feeLegs(b, s, fc, fd, f, tax) = debit(credit(debit(credit(debit(b, s, fd, f), MOD, fd, f), MOD, fd, tax), fc, fd, tax), MOD, fd, f - tax)
+
+//@ func Keeper.SetParams
+//@   property C16
+//@   returns err
+//@   modifies prm
+//@   ensures stored:   err == nil ==> has(prm) && get(prm) == params && paramsOK(params)
+//@   ensures rejected: err != nil ==> prm == old(prm)
+//@ end
+
+//@ func msgServer.UpdateParams
+//@   property C16
+//@   returns resp, err
+//@   modifies prm
+//@   ensures authority: err == nil ==> msg.Authority == m.k.authority
+//@   ensures stored:    err == nil ==> has(prm) && get(prm) == msg.Params && paramsOK(msg.Params)
+//@   ensures rejected:  err != nil ==> prm == old(prm)
+//@ end
+
+// Pool-creation fee: no parameter value accepted by validation may make this abort.
+//@ func Keeper.DeductPoolCreationFee
+//@   property C16, C06
+//@   returns err
+//@   requires paramsStored
+//@   let p = get(prm)
+//@   modifies bal, supply
+//@   ensures ledger: err == nil ==> bal == feeLegs(old(bal), creator, macc(k.feeCollectorName), p.PoolCreationFee.Denom, p.PoolCreationFee.Amount, taxOf(p))
+//@   ensures burned: err == nil ==> supply == addcoin(old(supply), p.PoolCreationFee.Denom, 0 - (p.PoolCreationFee.Amount - taxOf(p)))
+//@   nopanic C16
+//@ end
